@@ -6,12 +6,16 @@ import Octo.Lemmas.JsonLength
 namespace Octo.OutFmt
 open Octo Octo.Spec
 
-/-- the library's shortest float text reads back as the same float -/
-def FloatExact (L : Lib) : Prop := ∀ b, finite b = true → Num.litToF64 (L.fmtFloatG b) = b
+/-- the library's texts read back exactly: the shortest float text as the same float, the RFC 3339 text as the
+    same instant, the duration text as the same number of nanoseconds -/
+structure TextExact (L : Lib) : Prop where
+  float : ∀ b, finite b = true → Num.litToF64 (L.fmtFloatG b) = b
+  time : ∀ ns loc, TimeText.parseRfc3339 (L.fmtTime ns loc) = some ns
+  dur : ∀ ns, TimeText.parseDuration (L.fmtDur ns) = some ns
 
 mutual
-theorem erase_matches (L : Lib) (hE : FloatExact L) : ∀ (v : Value) (τ : Ty), fits τ v = true →
-    matchesV L τ v (erase L τ v) = true
+theorem erase_matches (L : Lib) (hE : TextExact L) : ∀ (v : Value) (τ : Ty), fits τ v = true →
+    matchesV τ v (erase L τ v) = true
   | .null, τ, h => by
     obtain ⟨t, hp⟩ := fits_pick h
     have e : erase L τ .null = .null := by simp [erase, hp]
@@ -24,7 +28,7 @@ theorem erase_matches (L : Lib) (hE : FloatExact L) : ∀ (v : Value) (τ : Ty),
     obtain ⟨t, hp⟩ := fits_pick h
     by_cases hb : finite b = true
     · have e : erase L τ (.float b) = .num (L.fmtFloatG b) := by simp [erase, hp, hb]
-      rw [e]; simp [matchesV, hp, hb, hE b hb]
+      rw [e]; simp [matchesV, hp, hb, hE.float b hb]
     · have e : erase L τ (.float b) = .null := by simp [erase, hp, hb]
       rw [e]; simp [matchesV, hp, hb]
   | .bool b, τ, h => by
@@ -38,11 +42,11 @@ theorem erase_matches (L : Lib) (hE : FloatExact L) : ∀ (v : Value) (τ : Ty),
   | .time ns loc, τ, h => by
     obtain ⟨t, hp⟩ := fits_pick h
     have e : erase L τ (.time ns loc) = .str (L.fmtTime ns loc) := by simp [erase, hp]
-    rw [e]; simp [matchesV, hp]
+    rw [e]; simp [matchesV, hp, hE.time ns loc]
   | .dur ns, τ, h => by
     obtain ⟨t, hp⟩ := fits_pick h
     have e : erase L τ (.dur ns) = .str (L.fmtDur ns) := by simp [erase, hp]
-    rw [e]; simp [matchesV, hp]
+    rw [e]; simp [matchesV, hp, hE.dur ns]
   | .list xs, τ, h => by
     obtain ⟨t, hp⟩ := fits_pick h
     unfold fits at h
@@ -70,14 +74,14 @@ theorem erase_matches (L : Lib) (hE : FloatExact L) : ∀ (v : Value) (τ : Ty),
     simp only [hp] at h
     have e : erase L τ (.tuple xs) = .arr (eraseEach L (tupleTys t) xs) := by simp [erase, hp]
     rw [e]; simp [matchesV, hp, eraseEach_matches L hE xs _ h]
-theorem eraseAll_matches (L : Lib) (hE : FloatExact L) : ∀ (xs : List Value) (e : Ty), fitsAll e xs = true →
-    matchesAll L e xs (eraseAll L e xs) = true
+theorem eraseAll_matches (L : Lib) (hE : TextExact L) : ∀ (xs : List Value) (e : Ty), fitsAll e xs = true →
+    matchesAll e xs (eraseAll L e xs) = true
   | [], _, _ => by simp [matchesAll, eraseAll]
   | x :: xs, e, h => by
     simp only [fitsAll, Bool.and_eq_true] at h
     simp [matchesAll, eraseAll, erase_matches L hE x e h.1, eraseAll_matches L hE xs e h.2]
-theorem eraseEach_matches (L : Lib) (hE : FloatExact L) : ∀ (xs : List Value) (ts : List Ty), fitsEach ts xs = true →
-    matchesEach L ts xs (eraseEach L ts xs) = true
+theorem eraseEach_matches (L : Lib) (hE : TextExact L) : ∀ (xs : List Value) (ts : List Ty), fitsEach ts xs = true →
+    matchesEach ts xs (eraseEach L ts xs) = true
   | [], [], _ => by simp [matchesEach, eraseEach]
   | [], _ :: _, h => by simp [fitsEach] at h
   | _ :: _, [], h => by simp [fitsEach] at h
